@@ -21,10 +21,11 @@ Theorem C15 :
   (* optimize() stores only to vertex poses, the fixed flag of vertices, private caches of the graph and fresh objects *)
   forallb allowed_optimize (closure effects_table FUEL (direct effects_table "Graph.optimize")) = true /\
   (* non-vacuity: bodies that normalise a measurement in an export, write into self in +=, store to a pose from a
-     helper reached through a call, or store to an information matrix during optimize are rejected *)
+     helper reached through a call, store to an information matrix during optimize, or set the fixed flag of a vertex other than the first one during optimize are rejected *)
   (query_pure [("X.to_g2o", [ECallMut "self.estimate" "normalize"])] "X.to_g2o" = false /\
    pose_op_pure [("P.__iadd__", [EWriteInto "self"])] "P.__iadd__" = false /\
    query_pure [("G.calc_chi2", [ECall "helper"]); ("E.helper", [EWriteAttr "self.vertices[*]" "pose"])] "G.calc_chi2" = false /\
-   forallb allowed_optimize [EWriteAttr "self._edges[*]" "information"] = false).
+   forallb allowed_optimize [EWriteAttr "self._edges[*]" "information"] = false /\
+   forallb allowed_optimize [EWriteAttr "self._vertices[*]" "fixed"] = false).
 Proof. exact C15_all. Qed.
 Print Assumptions C15.
